@@ -215,11 +215,20 @@ pub fn gen_dec(rng: &mut Rng) -> Dec {
 			13..=14 => {
 				// exact midpoints between adjacent doubles, and +-1 in a far digit
 				let Some(mut d) = midpoint_dec(rng) else { continue };
-				match rng.below(3) {
+				match rng.below(4) {
 					0 => (),
 					1 => {
 						d.digits.push_str("00000000001");
 						d.exp10 -= 11;
+					}
+					3 => {
+						// the deciding digit far beyond any digit budget of a bounded-precision parser
+						let z = rng.range(700, 1300);
+						for _ in 0..z {
+							d.digits.push('0')
+						}
+						d.digits.push('1');
+						d.exp10 -= z as i32 + 1;
 					}
 					_ => {
 						// subtract one unit in a far digit: ...5 -> ...49999999999
@@ -259,7 +268,20 @@ pub fn gen_ijson_number(rng: &mut Rng) -> String {
 	gen_dec(rng).spell(rng)
 }
 
-const KEY_POOLS: [&[&str]; 5] = [
+const KEY_POOLS: [&[&str]; 7] = [
+	// distinct supplementary characters sharing their high surrogate, next to BMP neighbours
+	&["\u{1f600}", "\u{1f601}", "\u{1f5ff}", "\u{1f600}\u{1f601}", "\u{1f601}\u{1f600}", "\u{ffff}", "\u{10000}", "\u{103ff}", "\u{10400}"],
+	// long common prefixes (16+ UTF-16 units, beyond any inline capacity) before the deciding character
+	&[
+		"0123456789abcdef\u{fffd}",
+		"0123456789abcdef\u{10ffff}",
+		"0123456789abcdef\u{e000}",
+		"0123456789abcdef\u{1f600}",
+		"0123456789abcdef",
+		"0123456789abcdefg",
+		"0123456789abcde\u{1f600}\u{e000}",
+		"0123456789abcde\u{1f600}\u{1f601}",
+	],
 	&["\u{e000}", "\u{ffff}", "\u{fb33}", "\u{10000}", "\u{1f600}", "\u{10ffff}", "\u{ff5e}", "\u{fffd}"],
 	&["", "a", "aa", "ab", "a\u{e000}", "a\u{1f600}", "a\u{1f600}b", "a\u{e000}b", "b"],
 	&["\r", "1", "\u{80}", "\u{f6}", "\u{20ac}", "\u{1f600}", "\u{fb33}"],
@@ -274,6 +296,11 @@ fn gen_ijson_key(rng: &mut Rng) -> String {
 			let mut k = pool[rng.below(pool.len())].to_string();
 			if rng.chance(1, 4) {
 				k.push_str(pool[rng.below(pool.len())]);
+			}
+			if rng.chance(1, 8) {
+				// a long shared prefix in front of the deciding characters
+				let n = rng.range(14, 40);
+				k = format!("{}{}", "p".repeat(n), k);
 			}
 			k
 		}
